@@ -3088,13 +3088,14 @@ PROPS = {
     },
     'C15': {
         'run': run_C15,
-        'pinned': ['C15_kernel_sum_R', 'C15_kernels_agree_R', 'C15_read_set'],
-        'unproved': ['C15_float_bound_full: the floating-point deviation between two summation orders (a few ulps of the sum of absolute '
-                     'products) is measured on every run, not proved; overflow/underflow with huge dynamic range likewise',
+        'pinned': ['C15_kernel_sum_R', 'C15_kernels_agree_R', 'C15_read_set', 'C15_kernel_error_model', 'C15_kernel_error_f64',
+                   'C15_kernel_error_f32', 'C15_kernels_close_f64', 'C15_kernels_close_f32', 'C15_finite_example'],
+        'unproved': ['overflow: the floating-point bound (C15_kernels_close_f64/_f32) assumes finite kernel results; results that overflow are '
+                     'compared bit for bit on every run, not bounded by a theorem',
                      'NEON kernel: not compiled on x86-64, not modelled', 'CPU dispatch order: observed (the dispatched interpolator is '
                      'compared with the explicitly constructed ones), not modelled'],
-        'assumptions': ['ideal arithmetic for the theorems'],
-        'trusted_base': ['Reals axioms (ring)'],
+        'assumptions': ['ideal arithmetic for the _R theorems; Flocq BinarySingleNaN semantics of + * fma for the _f64/_f32 theorems'],
+        'trusted_base': ['Reals axioms (ring)', 'Flocq 4.1 (Bplus_correct, Bmult_correct, Bfma_correct, error_N_FLT)'],
     },
     'C10': {
         'run': run_C10,
